@@ -327,7 +327,8 @@ func (s *Store[K, V]) GetWithSecodary(key K) (V, bool, error) {
 		if !ok {
 			return v, &NotFound{}
 		}
-		if expire <= s.timerwheel.clock.NowNano() {
+		// expire 0 means no ttl
+		if expire != 0 && expire <= s.timerwheel.clock.NowNano() {
 			err = s.secondaryCache.Delete(key)
 			if err == nil {
 				err = &NotFound{}
@@ -1188,6 +1189,14 @@ func (s *LoadingStore[K, V]) Get(ctx context.Context, key K) (V, error) {
 				var notFound *NotFound
 				if err != nil && !errors.As(err, &notFound) {
 					return Loaded[V]{}, err
+				}
+				// expired in secondary cache, delete and fallback to loader
+				if ok && expire != 0 && expire <= s.timerwheel.clock.NowNano() {
+					err = s.secondaryCache.Delete(key)
+					if err != nil {
+						return Loaded[V]{}, err
+					}
+					ok = false
 				}
 				if ok {
 					result = s.setShardWithoutLock(shard, h, key, vs, cost, expire, true)
